@@ -232,8 +232,11 @@ class Exec:
         goal = zbool(goal)
         where = self.where(node)
         g = z3.simplify(goal)
-        self.obligations.append(Obligation(oid, kind, list(self.pc), g, where, list(self.axioms),
-                                           canary=canary, path=list(self.trail)))
+        ob = Obligation(oid, kind, list(self.pc), g, where, list(self.axioms),
+                        canary=canary, path=list(self.trail))
+        ob.inputs = self.ps.get("inputs")
+        ob.variant = self.ps.get("variant")
+        self.obligations.append(ob)
         if not canary:
             self.pc.append(g)     # assert-then-assume
 
